@@ -65,4 +65,33 @@ PROPS = {
                "all 30 ordered (driven, coupled) index pairs x scalings {+-1, +-2, 0.5, 0, random in [-2,2]} x robot zoo x "
                "{forward+links, inverse, inverse_continuing, 5-DOF variants} x nestings P, P(T), T(B(P)), P(P). "
                "non-trivial = link/forward lines and inverse lines with >= 1 answer"),
+    "C10": cfg(300, 20000, ["C10."],
+               "scenes = preset robot (bare or on a base transform) at a random joint vector x six link meshes (boxes of 8 or 14 vertices, "
+               "two-triangle plates of 6 vertices) x optional tool and base bodies x 0-3 environment objects placed 0.03..1 m from "
+               "link origins (incl. large plates) x safety tables (touch-only, positive distances, per-pair overrides with "
+               "NEVER_COLLIDES/0/positive/below -1 on any pair incl. tool, base, environment and pairs naming J1, both key orders) "
+               "x three modes; every scene run under rayon pools of 1, 2, 4, 16 threads; the oracle table (intersects, distance, "
+               "AABB pre-filter) is computed by direct parry3d calls on every pair of bodies. non-trivial = at least one colliding pair"),
+    "C11": cfg(200, 10000, ["C11."],
+               "robots with shape through both constructors (new with both flag values, with_safety over the C10 safety families) x "
+               "random base and tool transforms, limits and 0-3 obstacles near the links x four entry points, each with the inner "
+               "stack's answers, the robot's own verdict per answer and the wrapper's answers; every second case also forward, link "
+               "poses, limits, singularity and positioned_robot against the inner stack. non-trivial = the wrapper returned >= 1 answer"),
+    "C14": cfg(300, 10000, ["C14."],
+               "collision-free initial vectors in C10-style scenes (with and without base/tool, limits on 40% of robots) x from/to at "
+               "0.05..1.8 rad from the initial value x rayon pools 1,2,4,16; per candidate the compliance verdict, the full "
+               "collides() verdict of the same robot and the oracle table. non-trivial = at least one candidate offered"),
+    "C15": cfg(1500, 100000, ["C15."],
+               "robot zoo, bare / tool-base-frame stacks / parallelogram on top x random joint vectors (every sixth placed just below a "
+               "sign switch of the forward quaternion) x differencing steps {1e-7,1e-6,1e-5}; the matrix is read through "
+               "torques_from_vector(e_i); one random twist/wrench through all five entry points; condition number by SVD. "
+               "non-trivial = every case"),
+    "C17": cfg(1000, 300000, ["C17."],
+               "point triples at scales 1e-3..1e3, up to 1e3 from the origin x random rigid motions (50%), nearly collinear sources "
+               "(sine 1e-1..1e-6), exactly collinear sources/targets on a binary grid, one image moved 1..9 mm along an edge (kept 2% "
+               "from the 5 mm guard); Frame::translation; forward_transformed on the robot zoo. non-trivial = every case"),
+    "C18": cfg(1000, 20000, ["C18."],
+               "limit sets per joint in [-2pi,2pi]: any order, wrap-around with both limits positive / both negative / straddling zero, "
+               "some joints from==to, ordinary, more than a turn apart, special values; 200 (quick) or 1000 draws of the real "
+               "thread-local generator per set. non-trivial = every set (each line carries all draws)"),
 }
